@@ -267,6 +267,35 @@ func (u *Unit) libraryCall(c *ast.CallExpr, fun ast.Expr, env *Env) ([]Outcome, 
 		}
 		u.D.Trust("math.Round(x) = IEEE roundToIntegral, ties away from zero")
 		return ret(env, Value{App("fp.roundToIntegral RNA", SF64, v.Term), v.Ty}), true
+	case "math.Abs":
+		v := argv(0)
+		if v.Sort != SF64 {
+			unsup("math.Abs outside bv mode")
+		}
+		return ret(env, Value{App("fp.abs", SF64, v.Term), v.Ty}), true
+	case "math.IsNaN":
+		v := argv(0)
+		if v.Sort != SF64 {
+			unsup("math.IsNaN outside bv mode")
+		}
+		return ret(env, Value{App("fp.isNaN", SBool, v.Term), boolT}), true
+	case "math.IsInf":
+		v := argv(0)
+		if v.Sort != SF64 {
+			unsup("math.IsInf outside bv mode")
+		}
+		sign, ok := constInt(u, c.Args[1])
+		if !ok {
+			unsup("math.IsInf with non-constant sign")
+		}
+		inf := App("fp.isInfinite", SBool, v.Term)
+		switch {
+		case sign > 0:
+			inf = And(inf, App("fp.isPositive", SBool, v.Term))
+		case sign < 0:
+			inf = And(inf, App("fp.isNegative", SBool, v.Term))
+		}
+		return ret(env, Value{inf, boolT}), true
 	// ------------------------------------------------------------------ strconv
 	case "strconv.Atoi":
 		r, e := u.parseInt(env, argv(0).Term, wordBits, true)
